@@ -3,7 +3,7 @@ from __future__ import annotations
 
 from .. import scaffolds as S
 from ..engine_ch import Free, Harness
-from ..mdutil import block_parse, build_doc, exc_record, free_doc, get_md, pipeline_nn, scaffold_frees, shard_extras, stream_view
+from ..mdutil import deep_equal, block_parse, build_doc, exc_record, free_doc, get_md, pipeline_nn, scaffold_frees, shard_extras, stream_view
 from ..sym import no_tracing
 
 EXPLANATION = (
@@ -50,7 +50,7 @@ def _single_run(params, values):
     recs = []
     if len(inl) != 1 or inl[0].type != "inline":
         recs.append({"key": "parseInline-shape"})
-    elif stream_view(inl[0].children or []) != stream_view(full[1].children or []):
+    elif not deep_equal(stream_view(inl[0].children or []), stream_view(full[1].children or [])):
         recs.append({"key": "parseInline-children-differ-from-paragraph"})
     if h_full != "<p>" + h_inl + "</p>\n":
         recs.append({"key": "renderInline-differs-from-paragraph-html"})
@@ -87,7 +87,7 @@ def _ctx_run(params, values):
             if ref is None:
                 ref = (kids, h, name)
             else:
-                if kids != ref[0]:
+                if not deep_equal(kids, ref[0]):
                     recs.append({"key": "inline-tokens-differ-between-contexts", "ctx": name})
                 if h != ref[1]:
                     recs.append({"key": "inline-html-differs-between-contexts", "ctx": name})
@@ -146,32 +146,51 @@ def _opt_run(params, values):
         for k, v in saved.items():
             twin.options[k] = v
     recs = []
-    if stream_view(t1) != stream_view(t2):
+    if not deep_equal(stream_view(t1), stream_view(t2)):
         recs.append({"key": "render-option-changes-tokens"})
-    # map the documented places of h2 back to the base spelling
-    m = h2
-    if values["xh"]:
-        # under xhtmlOut every void tag must be spelled with ' />'
-        if "<br>" in h2 or "<hr>" in h2 or ("<img " in h2 and " />" not in h2):
-            recs.append({"key": "xhtmlOut-void-tag-spelling"})
-        m = m.replace(" />", ">")
-    elif " />" in h2:
-        recs.append({"key": "xhtmlOut-void-tag-spelling"})
+    # map the documented places of h2 back to the base spelling (code-point lists: native speed on the concrete part)
+    from ..symstr import contains, count, cps, replace, same
+
+    c1, c2 = cps(h1), cps(h2)
+    lp = cps(escapeHtml(values["lp"]))
     nsoft = 0
     for t in t1:
         for c in (t.children or []):
             if c.type == "softbreak":
                 nsoft += 1
-    if values["br"]:
-        if m.count("<br>\n") != h1.count("<br>\n") + nsoft:
-            recs.append({"key": "breaks-option-effect", "detail": "number of <br> differs from hardbreaks + softbreaks"})
-        m = m.replace("<br>\n", "\n")
-        b = h1.replace("<br>\n", "\n")
-    else:
-        b = h1
-    b = b.replace('class="language-', 'class="' + escapeHtml(values["lp"]))
-    if m != b:
-        recs.append({"key": "render-option-changes-html-elsewhere"})
+    with no_tracing():
+        m = c2
+        if values["xh"]:
+            # under xhtmlOut every void tag must be spelled with ' />'
+            if contains(c2, "<br>") or contains(c2, "<hr>") or (contains(c2, "<img ") and not contains(c2, " />")):
+                recs.append({"key": "xhtmlOut-void-tag-spelling"})
+            m = replace(m, " />", ">")
+        elif contains(c2, " />"):
+            recs.append({"key": "xhtmlOut-void-tag-spelling"})
+        if values["br"]:
+            if count(m, "<br>\n") != count(c1, "<br>\n") + nsoft:
+                recs.append({"key": "breaks-option-effect", "detail": "number of <br> differs from hardbreaks + softbreaks"})
+            m = replace(m, "<br>\n", "\n")
+            b = replace(c1, "<br>\n", "\n")
+        else:
+            b = c1
+        # class="language-X" -> class="<lp>X"
+        pre = [ord(ch) for ch in 'class="']
+        b2 = []
+        i = 0
+        key = 'class="language-'
+        while i < len(b):
+            from ..symstr import starts
+
+            if starts(b, i, key):
+                b2.extend(pre)
+                b2.extend(lp)
+                i += len(key)
+            else:
+                b2.append(b[i])
+                i += 1
+        if not same(m, b2):
+            recs.append({"key": "render-option-changes-html-elsewhere"})
     return recs, h2
 
 
